@@ -152,7 +152,66 @@ def check_tolerances(prog, rep, rule, roots):
                     rep.undecided(rule, key, text)
                 else:
                     (rep.ok if ok else rep.viol)(rule, key, text, site_of(s_.span))
+        if not any(o_.rule == rule and o_.key == '%s:%s' % (rule, k) for o_ in getattr(rep, 'obs', [])) and pdb.bodies[k].local_ty(0) == 'bool':
+            # expression form: the predicate's value is a bool expression (all / any over closures, !(..), a local comparison closure)
+            for r_ in f.return_values():
+                for cond, val in _bool_leaves(prog, r_, True, 0):
+                    reads = set(x for x in subterms(cond) if is_datum(x))
+                    if len(reads) < 2 or tag(cond) != 'bin' or cond[4] not in ('f64', 'f32'):
+                        continue
+                    n += 1
+                    key = '%s:%s' % (rule, k)
+                    ok, text = tolerance_verdict(cond, val, is_datum)
+                    if ok is None:
+                        rep.undecided(rule, key, text)
+                    else:
+                        (rep.ok if ok else rep.viol)(rule, key, text, site_of(f.body))
     return n
+
+
+def _bool_leaves(prog, t, pol, depth):
+    """comparisons a bool expression is built from, each with the truth value that drives the whole expression towards false:
+    yields (comparison, value).  Read through !x, a & b, a | b, iter.all(closure) / iter.any(closure) and direct calls of local closures
+    (parameters replaced by the argument terms, captures by the captured terms)."""
+    from .ir import map_term
+    if depth > 6 or not isinstance(t, tuple):
+        return
+    k = tag(t)
+    if k == 'un' and t[1] == 'Not':
+        yield from _bool_leaves(prog, t[2], not pol, depth)
+        return
+    if k == 'bin' and t[1] in ('BitAnd', 'BitOr'):
+        yield from _bool_leaves(prog, t[2], pol, depth)
+        yield from _bool_leaves(prog, t[3], pol, depth)
+        return
+    if k == 'bin' and t[1] in ('Lt', 'Le', 'Gt', 'Ge', 'Eq', 'Ne'):
+        yield (t, not pol)
+        return
+    if k == 'call' and short(t[1]) in ('all', 'any') and len(t[2]) == 2 and tag(t[2][1]) == 'agg' and t[2][1][1] == 'closure':
+        cl = t[2][1]
+        g = prog.func(cl[2])
+        if g is None:
+            return
+        for rv in g.return_values():
+            rv2 = map_term(rv, lambda n_: cl[3][n_[1]] if tag(n_) == 'upvar' and n_[1] < len(cl[3]) else n_)
+            yield from _bool_leaves(prog, rv2, pol, depth + 1)
+        return
+    if k == 'call' and t[1] in prog.pdb.bodies and len(t[2]) == 2 and tag(t[2][0]) == 'agg' and t[2][0][1] == 'closure' \
+            and tag(t[2][1]) == 'agg' and t[2][1][1] == 'tuple':
+        cl, tup = t[2]
+        g = prog.func(t[1])
+        if g is None or g.body.kind != 'closure':
+            return
+        comps = tup[3]
+        for rv in g.return_values():
+            def sub(n_, cl=cl, comps=comps):
+                if tag(n_) == 'upvar' and n_[1] < len(cl[3]):
+                    return cl[3][n_[1]]
+                if tag(n_) == 'arg' and 2 <= n_[1] < 2 + len(comps):
+                    return comps[n_[1] - 2]
+                return n_
+            yield from _bool_leaves(prog, map_term(rv, sub), pol, depth + 1)
+        return
 
 
 def _is_zero(t):
